@@ -168,7 +168,14 @@ func broadcasterFacts(s *src, f *facts) {
 				selCtx = strings.Contains(s.str(cc), ctxParam+".Err()")
 			}
 			if s.commRecvFrom(cc, hasSuffix(".done")) && strings.Contains(s.str(cc), "ErrClosed") {
+				// a freed / closed entry yields ErrClosed and nothing else (not, say, the cause handed to Close: the error of an
+				// in-flight call would then depend on the transport's and serializer's error texts)
 				selDone = true
+				for _, r := range all[*ast.ReturnStmt](cc, nil) {
+					if len(r.Results) != 2 || s.str(r.Results[1]) != "ErrClosed" {
+						selDone = false
+					}
+				}
 			}
 		}
 		f.b("bcRecvSelectsChan", selChan, s.pos(sel))
